@@ -29,6 +29,9 @@ def scalar_forms(v):
     return [(n, x) for (n, x) in out if float(x) == float(v)]
 
 
+_LBUF = {}
+
+
 def work_admm(task):
     from vlib import lib
     lib.load("nojit")
@@ -62,7 +65,13 @@ def work_admm(task):
                 # scalar vs constant matrix
                 acc.n += 1
                 acc.nontrivial += 1
-                got = admm.admm_optimize_theta(S.copy(), np.full((n, n), float(v)), W, N).theta
+                LBUF = _LBUF.setdefault(n, np.empty((n, n)))
+                LBUF[:] = float(v)            # one penalty matrix object, refilled between solves
+                got = admm.admm_optimize_theta(S.copy(), LBUF, W, N).theta
+                fresh = admm.admm_optimize_theta(S.copy(), np.full((n, n), float(v)), W, N).theta
+                if fresh.tobytes() != got.tobytes():
+                    acc.fail(dict(case0, form="matrix_identity", v=v),
+                             f"lambda={v}: a refilled matrix object and a fresh matrix with the same contents give different Theta")
                 dyadic = v in (0.25, 0.5, 1.0, 2.0, 0.0)
                 if dyadic:
                     ok = got.tobytes() == base.tobytes()
@@ -164,6 +173,7 @@ def work_e2e(task):
     (name, seed, inits, entry) = task
     acc = Acc()
     d0 = ml.get_driver(name, seed)
+    joint = d0.joint
     forms = e2e_forms(d0)
     groups = {}
     for (param, tn, kw) in forms:
@@ -175,7 +185,7 @@ def work_e2e(task):
             ref = None
             for (tn, kw) in lst:
                 d = ml.Driver(f"{name}_{param}_{tn}", d0.series, W=d0.W, K=d0.K, lam=kw["lam"], beta=kw["beta"],
-                              m=d0.m, eps=kw["eps"], biased=d0.biased)
+                              m=d0.m, eps=kw["eps"], biased=d0.biased, joint=joint)
                 rec = ml.real_run(d, init, 6, (), entry=entry)
                 acc.n += 1
                 case = {"kind": "e2e", "driver": name, "seed": seed, "init": list(init), "param": param,
@@ -193,7 +203,7 @@ def work_e2e(task):
                     acc.count("both_raised")
                     continue
                 acc.nontrivial += 1
-                if [int(x) for x in a.result.point_labels] != [int(x) for x in rec.result.point_labels]:
+                if not same_value(a.result.point_labels, rec.result.point_labels):
                     acc.fail(case, f"{param} as {ref[0]} vs {tn}: different labels")
                     continue
                 for f in FIELDS:
@@ -224,6 +234,10 @@ def run(ctx):
     if not ctx.thorough:
         inits = inits[::2]
     tasks = [("k2a", ctx.seed, inits[lo:lo + 4], "front") for lo in range(0, len(inits), 4)]
+    dj = ml.get_driver("j3", ctx.seed)
+    jinits = ml.all_labellings(dj.Tp, dj.K)
+    jinits = jinits[::(4 if ctx.thorough else 16)]
+    tasks += [("j3", ctx.seed, jinits[lo:lo + 4], "front") for lo in range(0, len(jinits), 4)]
     for r in ctx.pmap(work_e2e, tasks):
         ctx.take(r)
     ctx.cov["exhaustive"] = True
@@ -236,7 +250,7 @@ def run(ctx):
         "within one process; (ii) every table over {0,1,3}^(T*K), T*K<=6 (thorough 8): beta in {0,0.5,1,2,5} in every scalar "
         "type and as float64/float32/int64 constant vector: identical labels and cost; (iii) driver k2a, every "
         "2nd (thorough: every) initial labelling, through ticc_labels: lambda=1, beta=2, eps=0 and eps=0.25 each "
-        "in every equivalent form: all result fields bitwise equal. non-trivial = comparisons where both forms "
+        "in every equivalent form: all result fields bitwise equal; the same through ticc_joint_labels on the 3-series driver j3 (every 16th initial labelling; thorough every 4th). non-trivial = comparisons where both forms "
         "returned")
 
 
